@@ -29,7 +29,11 @@ RULE = (
     "thresholds {10^6, 6}, full + score_only call, oracle = O(nm) reference DP (cross-checked against the "
     "enumeration in the same shard); for threshold 10^6 the smallest accepted max_table_size is located by bisection "
     "and both sides of it are executed with and without traceback tables; plus align_local_ungapped (uint8 and "
-    "generic path) and align_banded on the same long pairs; non-trivial there = a table had to grow."
+    "generic path) and align_banded on the same long pairs; non-trivial there = a table had to grow. Audit families "
+    "(kind 'audit'): object flavours and library sequence classes (as in C08) through the complete oracle for all "
+    "three functions on all pairs of length 1..2; argument-order mirror for every band / seed; aliasing, reuse and "
+    "refused calls (differential); band / seed / threshold / penalty / max_number given as numpy scalars, lists or "
+    "arrays (unspecified: exception or the plain result)."
 )
 ASSUMPTIONS = [
     "matrix entries stay far from the int32 range (largest entry 100000)",
@@ -46,6 +50,9 @@ ASSUMPTIONS = [
     "semi-global completion: unaligned prefix and suffix of BOTH sequences are added as gap columns before "
     "rescoring; when the order of two prefixes / the side of a sequence that does not occur in the trace is "
     "ambiguous, every completion is tried and one match suffices",
+    "audit families: read-only code arrays are legal input; f(a, b, M, x) == f(b, a, M.transpose(), mirrored x) in "
+    "the reported score is demanded as a differential relation (both calls are instances of the same documented problem); "
+    "non-int argument types are unspecified (EITHER)",
     "long family: the initial capacity 100 x 100 of the tables of align_local_gapped (INIT_SIZE) is taken from the "
     "source, only to place the lengths on both sides of the switch and to know which calls have to grow a table; the "
     "max_table_size oracle itself is policy-free: MemoryError is demanded when the limit is below the (a+1)(b+1) "
@@ -199,6 +206,8 @@ def shards(tier, seed):
     out = []
     for n in LONG_LENS[tier]:
         out.append({"kind": "long", "n": n, "variant": variant, "embed": embed})
+    for sub in ("flavours_banded", "flavours_seeded", "library", "mirror", "alias", "argument_types"):
+        out.append({"kind": "audit", "sub": sub, "variant": variant, "embed": embed})
     per = {"banded": 12, "gapped": 24, "ungapped": 75}
     for kind in ("banded", "gapped", "ungapped"):
         for gi, g in enumerate(c[kind]):
@@ -221,7 +230,7 @@ def shards(tier, seed):
                 continue
             out.append({"kind": "width", "dtypes": [d1, d2], "variant": variant, "embed": embed})
     out.append({"kind": "refuse", "variant": variant, "embed": embed})
-    order = {"long": -1, "banded": 0, "gapped": 1, "width": 2, "ungapped": 3, "refuse": 4}
+    order = {"long": -1, "audit": -2, "banded": 0, "gapped": 1, "width": 2, "ungapped": 3, "refuse": 4}
     out.sort(key=lambda s: order[s["kind"]])
     return out
 
@@ -263,6 +272,10 @@ def _seeded(env, c1, c2, gap, seed, direction):
         if r[0] != A.seeded_opt(c1, c2, env.mat, gap, seed, direction):
             raise RuntimeError("reference models disagree on the seeded optimum")
     return r
+
+
+def _readonly_refused(env, e):
+    return getattr(env, "seq_flavour", "") == "readonly_code" and isinstance(e, ValueError) and "read-only" in str(e)
 
 
 def _cols_json(t):
@@ -345,6 +358,10 @@ def check_banded(ctx, env, l1, l2, band, gap, local, max_number, either=False):
         if either:
             ctx.count("unspecified_raised")
             ctx.outcome(("banded_exc", type(e).__name__))
+            return
+        if _readonly_refused(env, e):
+            ctx.violation("align_banded|readonly_code_refused|any", "a sequence whose code array is read-only is refused: "
+                          + str(e)[:100], case, "a result", type(e).__name__)
             return
         viol("exception_%s" % type(e).__name__, "legal input raised %s: %s" % (type(e).__name__, str(e)[:200]),
              "a list of alignments", type(e).__name__)
@@ -496,6 +513,10 @@ def check_gapped(ctx, env, l1, l2, seed, threshold, gap, direction, extra=False)
         so = balign.align_local_gapped(s1, s2, env.matrix, seed, threshold, gap_penalty=gap, max_number=1000,
                                        direction=direction, score_only=True)
     except Exception as e:  # noqa: BLE001
+        if _readonly_refused(env, e):
+            ctx.violation("align_local_gapped|readonly_code_refused|any", "a sequence whose code array is read-only is refused: "
+                          + str(e)[:100], case, "a result", type(e).__name__)
+            return
         viol("exception_%s" % type(e).__name__, "legal input raised %s: %s" % (type(e).__name__, str(e)[:200]))
         return
     ctx.count("accepted")
@@ -674,6 +695,10 @@ def check_ungapped(ctx, env, l1, l2, seed, threshold, direction):
         a = balign.align_local_ungapped(s1, s2, env.matrix, seed, threshold, direction)
         so = balign.align_local_ungapped(s1, s2, env.matrix, seed, threshold, direction, score_only=True)
     except Exception as e:  # noqa: BLE001
+        if _readonly_refused(env, e):
+            ctx.violation("align_local_ungapped|readonly_code_refused|any", "a sequence whose code array is read-only is refused: "
+                          + str(e)[:100], case, "a result", type(e).__name__)
+            return
         viol("exception_%s" % type(e).__name__, "legal input raised %s: %s" % (type(e).__name__, str(e)[:200]))
         return
     ctx.count("accepted")
@@ -1037,6 +1062,274 @@ def _run_long_pairs(ctx, env, env16, l1, n, tier):
 
 
 # ---------------------------------------------------------------------------
+# dimension audit families (object flavours, argument order, aliasing / reuse / error paths, argument types)
+# ---------------------------------------------------------------------------
+AUDIT_GAPS = [-1, (-2, -1)]
+
+
+def _audit_all_functions(ctx, env, max_len, gaps, what=("banded", "gapped", "ungapped")):
+    from mc.models import align_inputs as I
+
+    for l1 in I.sequences(env.k1, max_len, 1):
+        for l2 in I.sequences(env.k2, max_len, 1):
+            n, m = len(l1), len(l2)
+            if "banded" in what:
+                for band in all_bands(n, m):
+                    if not band_has_cell(n, m, band[0], band[1]):
+                        continue
+                    for gap in gaps:
+                        for local in (False, True):
+                            check_banded(ctx, env, l1, l2, band, gap, local, 1000)
+            for i0 in range(n):
+                for j0 in range(m):
+                    for thr in (1, 10**6):
+                        for direction in DIRECTIONS:
+                            if "gapped" in what:
+                                for gap in gaps:
+                                    check_gapped(ctx, env, l1, l2, (i0, j0), thr, gap, direction)
+                            if "ungapped" in what:
+                                check_ungapped(ctx, env, l1, l2, (i0, j0), thr, direction)
+    _mutated(ctx, env, "flavour")
+
+
+def _three_calls(env, l1, l2, gap):
+    """The representative calls of the differential families: name -> (function, args, kwargs)."""
+    import biotite.sequence.align as balign
+
+    n, m = len(l1), len(l2)
+    # an off-diagonal seed that is also in range with its coordinates exchanged (where the lengths allow it)
+    sd = (0, 1) if n >= 2 and m >= 2 else (n - 1, m - 1)
+    return {
+        "align_banded": (balign.align_banded, [(-1, m)], {"gap_penalty": gap}),
+        "align_banded_local": (balign.align_banded, [(-n, 1)], {"gap_penalty": gap, "local": True}),
+        "align_local_gapped": (balign.align_local_gapped, [sd, 2], {"gap_penalty": gap, "max_number": 5}),
+        "align_local_gapped_score": (balign.align_local_gapped, [(0, 0), 10**6],
+                                     {"gap_penalty": gap, "score_only": True}),
+        "align_local_ungapped": (balign.align_local_ungapped, [sd, 1], {}),
+    }
+
+
+def audit_mirror(ctx, shard):
+    """f(a, b, M, x) and f(b, a, M.transpose(), mirrored x) must report the same score (every band / every seed)."""
+    import biotite.sequence.align as balign
+
+    from mc.models import align_inputs as I
+
+    for k1, k2, fam, ln in ((2, 2, "asym", 3), (2, 3, "rect", 2)):
+        env = I.Env(k1, k2, fam, shard["variant"], shard["embed"])
+        mt = env.matrix.transpose()
+        for l1 in I.sequences(k1, ln, 1):
+            for l2 in I.sequences(k2, ln, 1):
+                n, m = len(l1), len(l2)
+                s1, s2 = env.seq(1, l1), env.seq(2, l2)
+                base = {"kind": "mirror", **env.describe(), "s1": list(l1), "s2": list(l2)}
+                for gap in AUDIT_GAPS:
+                    pairs = []
+                    for band in all_bands(n, m):
+                        if band_has_cell(n, m, band[0], band[1]):
+                            for local in (False, True):
+                                pairs.append(("align_banded", {"band": list(band), "local": local},
+                                              lambda b=band, lc=local: balign.align_banded(
+                                                  s1, s2, env.matrix, b, gap_penalty=gap, local=lc)[0].score,
+                                              lambda b=band, lc=local: balign.align_banded(
+                                                  s2, s1, mt, (-b[1], -b[0]), gap_penalty=gap, local=lc)[0].score))
+                    for i0 in range(n):
+                        for j0 in range(m):
+                            for thr in (1, 10**6):
+                                for d in DIRECTIONS:
+                                    pairs.append(("align_local_gapped", {"seed": [i0, j0], "threshold": thr, "direction": d},
+                                                  lambda i=i0, j=j0, t=thr, d=d: balign.align_local_gapped(
+                                                      s1, s2, env.matrix, (i, j), t, gap_penalty=gap, direction=d,
+                                                      score_only=True),
+                                                  lambda i=i0, j=j0, t=thr, d=d: balign.align_local_gapped(
+                                                      s2, s1, mt, (j, i), t, gap_penalty=gap, direction=d,
+                                                      score_only=True)))
+                                    if gap == AUDIT_GAPS[0]:
+                                        pairs.append(("align_local_ungapped",
+                                                      {"seed": [i0, j0], "threshold": thr, "direction": d},
+                                                      lambda i=i0, j=j0, t=thr, d=d: balign.align_local_ungapped(
+                                                          s1, s2, env.matrix, (i, j), t, d, score_only=True),
+                                                      lambda i=i0, j=j0, t=thr, d=d: balign.align_local_ungapped(
+                                                          s2, s1, mt, (j, i), t, d, score_only=True)))
+                    for fn, extra, f, g in pairs:
+                        ctx.ev(2, 1)
+                        case = {**base, "gap": I.gap_json(gap), "fn": fn, **extra}
+                        try:
+                            a, b = int(f()), int(g())
+                        except Exception as e:  # noqa: BLE001
+                            ctx.violation("%s|mirror_exception_%s|%s" % (fn, type(e).__name__, I.gap_class(gap)),
+                                          "one of the two argument orders raised", case, None, str(e)[:100])
+                            continue
+                        ctx.outcome(("mirror", fn, a))
+                        if a != b:
+                            ctx.violation("%s|mirror_score_differs|%s" % (fn, I.gap_class(gap)),
+                                          "f(a, b, M, x) and f(b, a, M.transpose(), mirrored x) report different scores",
+                                          case, a, b)
+
+
+def audit_alias(ctx, shard):
+    """Inputs untouched; results independent of each other and of later calls; state after refused calls."""
+    from mc.models import align_audit as AU
+    from mc.models import align_inputs as I
+
+    for fam in ("zero", "asym"):
+        env = I.Env(2, 2, fam, shard["variant"], shard["embed"])
+        for l1 in I.sequences(2, 3, 1):
+            for l2 in I.sequences(2, 2, 1):
+                for gap in AUDIT_GAPS:
+                    for name, (f, args, kw) in _three_calls(env, l1, l2, gap).items():
+                        ctx.ev(3, 1)
+                        case = {"kind": "alias", **env.describe(), "s1": list(l1), "s2": list(l2),
+                                "gap": I.gap_json(gap), "call": name}
+                        site = f.__name__
+                        cls = "%s|%s" % (name, I.gap_class(gap))
+                        if site == "align_local_ungapped":
+                            kw = {}
+                        elif name == "align_local_ungapped":
+                            pass
+                        s1, s2 = env.seq(1, l1), env.seq(2, l2)
+
+                        def call(*a, **k):
+                            if site == "align_local_ungapped":
+                                k.pop("gap_penalty", None)
+                            return f(s1, s2, env.matrix, *a, **k)
+
+                        before = AU.snapshot(env, l1, l2)
+                        try:
+                            res = call(*args, **kw)
+                        except Exception as e:  # noqa: BLE001
+                            ctx.violation("%s|exception_%s|%s" % (site, type(e).__name__, cls), "legal input raised",
+                                          case, None, str(e)[:100])
+                            continue
+                        ref = AU.result_key(res)
+                        if AU.snapshot(env, l1, l2) != before:
+                            ctx.violation("%s|inputs_modified|%s" % (site, cls), "the call modified a sequence code "
+                                          "or the matrix", case)
+                            continue
+                        if AU.traces_share_memory(res):
+                            ctx.violation("%s|results_share_memory|%s" % (site, cls), "two returned alignments share "
+                                          "their trace memory", case)
+                            continue
+                        # refused calls in between
+                        refusals = [([(-1, 0), 2] if "gapped" in site else None, {}),
+                                    (args, {**kw, "gap_penalty": 1} if site != "align_local_ungapped" else None),
+                                    ([(50, 60)] if site == "align_banded" else None, kw)]
+                        for a2, k2 in refusals:
+                            if a2 is None or k2 is None:
+                                continue
+                            try:
+                                call(*a2, **{**kw, **k2})
+                                ctx.violation("%s|not_refused|%s" % (site, cls), "invalid argument accepted", case)
+                            except Exception:  # noqa: BLE001
+                                ctx.count("refused")
+
+                        def short(k):
+                            return k if not isinstance(k, tuple) else k[:2]
+
+                        res2 = call(*args, **kw)
+                        if AU.result_key(res2) != ref:
+                            ctx.violation("%s|second_call_differs|%s" % (site, cls), "the same call gives another result "
+                                          "after refused calls were made", case, short(ref), short(AU.result_key(res2)))
+                            continue
+                        AU.scribble(res2)
+                        if AU.result_key(res) != ref:
+                            ctx.violation("%s|results_of_two_calls_share_state|%s" % (site, cls), "overwriting the result "
+                                          "of a later call changed an earlier result", case, short(ref),
+                                          short(AU.result_key(res)))
+                        elif AU.result_key(call(*args, **kw)) != ref:
+                            ctx.violation("%s|second_call_differs|%s" % (site, cls), "the same call gives another result "
+                                          "after an earlier result was overwritten by the caller", case)
+                        elif AU.snapshot(env, l1, l2) != before:
+                            ctx.violation("%s|inputs_modified|%s" % (site, cls), "a refused call modified a sequence "
+                                          "code or the matrix", case)
+                        ctx.outcome(("alias", name, ref if isinstance(ref, int) else len(ref)))
+
+
+def audit_argument_types(ctx, shard):
+    """band / seed / threshold / penalties / max_number given as numpy scalars, lists or arrays: unspecified by the
+    statement - a clean exception or exactly the result of the plain-int call."""
+    import numpy as np
+
+    from mc.models import align_audit as AU
+    from mc.models import align_inputs as I
+
+    env = I.Env(2, 2, "asym", shard["variant"], shard["embed"])
+
+    def conv(x, how):
+        if how == "np_int64":
+            return tuple(np.int64(v) for v in x) if isinstance(x, tuple) else np.int64(x)
+        if how == "np_int32":
+            return tuple(np.int32(v) for v in x) if isinstance(x, tuple) else np.int32(x)
+        if how == "list":
+            return list(x) if isinstance(x, tuple) else x
+        if how == "ndarray":
+            return np.array(x) if isinstance(x, tuple) else np.array(x)  # 0-d array
+        return x
+
+    for l1 in I.sequences(2, 2, 1):
+        for l2 in I.sequences(2, 3, 1):
+            for gap in AUDIT_GAPS:
+                for name, (f, args, kw) in _three_calls(env, l1, l2, gap).items():
+                    if f.__name__ == "align_local_ungapped":
+                        kw = {}
+                    s1, s2 = env.seq(1, l1), env.seq(2, l2)
+                    ref = AU.result_key(f(s1, s2, env.matrix, *args, **kw))
+                    for how in ("np_int64", "np_int32", "list", "ndarray"):
+                        for target in ["arg0", "arg1", "gap", "max_number"]:
+                            a2, k2 = list(args), dict(kw)
+                            if target == "arg0":
+                                a2[0] = conv(a2[0], how)
+                            elif target == "arg1":
+                                if len(a2) < 2:
+                                    continue
+                                a2[1] = conv(a2[1], how)
+                            elif target == "gap":
+                                if "gap_penalty" not in k2 or (how == "list" and not isinstance(gap, tuple)):
+                                    continue
+                                k2["gap_penalty"] = conv(gap, how)
+                            else:
+                                if "max_number" not in k2 or how in ("list",):
+                                    continue
+                                k2["max_number"] = conv(k2["max_number"], how)
+                            ctx.ev(1, 1)
+                            case = {"kind": "argtypes", **env.describe(), "s1": list(l1), "s2": list(l2),
+                                    "gap": I.gap_json(gap), "call": name, "how": how, "target": target}
+                            try:
+                                got = AU.result_key(f(s1, s2, env.matrix, *a2, **k2))
+                            except Exception as e:  # noqa: BLE001
+                                ctx.count("unspecified_raised")
+                                ctx.outcome(("argtype_exc", name, how, target, type(e).__name__))
+                                continue
+                            ctx.count("unspecified_returned")
+                            if got != ref:
+                                ctx.violation("%s|argument_type_changes_result|%s_%s" % (f.__name__, target, how),
+                                              "an argument given as %s instead of int/tuple is accepted but changes "
+                                              "the result" % how, case, ref if isinstance(ref, int) else ref[:2],
+                                              got if isinstance(got, int) else got[:2])
+
+
+def run_audit(shard, ctx):
+    from mc.models import align_audit as AU
+
+    sub = shard["sub"]
+    if sub == "flavours_banded":
+        for env in AU.flavour_envs(shard["variant"], shard["embed"]):
+            _audit_all_functions(ctx, env, 2, AUDIT_GAPS, ("banded",))
+    elif sub == "flavours_seeded":
+        for env in AU.flavour_envs(shard["variant"], shard["embed"]):
+            _audit_all_functions(ctx, env, 2, AUDIT_GAPS, ("gapped", "ungapped"))
+    elif sub == "library":
+        for env in (AU.LibEnv("nucleotide"), AU.LibEnv("protein")):
+            _audit_all_functions(ctx, env, 2, AUDIT_GAPS[:1])
+    elif sub == "mirror":
+        audit_mirror(ctx, shard)
+    elif sub == "alias":
+        audit_alias(ctx, shard)
+    elif sub == "argument_types":
+        audit_argument_types(ctx, shard)
+
+
+# ---------------------------------------------------------------------------
 # code widths, refusals
 # ---------------------------------------------------------------------------
 def run_width(shard, ctx):
@@ -1123,7 +1416,7 @@ def run_refuse(shard, ctx):
 
 
 def run_shard(shard, ctx):
-    {"long": run_long, "banded": run_banded, "gapped": run_gapped, "ungapped": run_ungapped, "width": run_width,
+    {"long": run_long, "audit": run_audit, "banded": run_banded, "gapped": run_gapped, "ungapped": run_ungapped, "width": run_width,
      "refuse": run_refuse}[shard["kind"]](shard, ctx)
 
 
@@ -1149,9 +1442,13 @@ def replay(case, ctx):
         check_banded(ctx, env, tuple(case["s1"]), tuple(case["s2"]), tuple(case["band"]),
                      I.gap_from_json(case["gap"]), case["local"], 1000, either=True)
         return
-    k1, k2 = case["k"]
-    d1, d2 = case.get("dtypes", ["uint8", "uint8"])
-    env = I.Env(k1, k2, case["fam"], case["variant"], case["embed"], d1, d2)
+    if kind in ("mirror", "alias", "argtypes"):
+        sh = {"variant": case["variant"], "embed": case["embed"]}
+        {"mirror": audit_mirror, "alias": audit_alias, "argtypes": audit_argument_types}[kind](ctx, sh)
+        return
+    from mc.models import align_audit as AU
+
+    env = AU.make_env(case)
     if kind in ("long_gapped", "long_banded") or (kind == "ungapped" and "n" in case):
         l1, l2 = long_letters(case["n"], 1), long_letters(case["m"], 2)
         if kind == "long_gapped":
